@@ -73,29 +73,34 @@ func C12(r *eng.Run) {
 			// semantic reading through the non-binary API
 			v := ref.Decode(b)
 			form, neg, coef, exp := d.Decompose(nil)
-			got := fmt.Sprintf("form=%d neg=%v coef=%x exp=%d nan=%v inf=%v sign=%v", form, neg, coef, exp, d.IsNaN(), d.IsInf(0), d.Signbit())
+			got := fmt.Sprintf("form=%d neg=%v nan=%v inf=%v sign=%v", form, neg, d.IsNaN(), d.IsInf(0), d.Signbit())
 			var want string
+			valueOK := true
 			switch v.Class {
 			case ref.NaN:
-				want = fmt.Sprintf("form=2 neg=%v coef= exp=0 nan=true inf=false sign=%v", v.Neg, v.Neg)
+				want = fmt.Sprintf("form=2 neg=%v nan=true inf=false sign=%v", v.Neg, v.Neg)
 				nspecial++
 			case ref.Inf:
-				want = fmt.Sprintf("form=1 neg=%v coef= exp=0 nan=false inf=true sign=%v", v.Neg, v.Neg)
+				want = fmt.Sprintf("form=1 neg=%v nan=false inf=true sign=%v", v.Neg, v.Neg)
 				nspecial++
 			default:
+				// the parts must denote the value the independent decoder reads (which of the equal
+				// (coefficient, exponent) pairs Decompose reports is C14's business, not the binary form's)
+				want = fmt.Sprintf("form=0 neg=%v nan=false inf=false sign=%v", v.Neg, v.Neg)
+				valueOK = sameValueParts(coef, int(exp), v)
 				if v.C.Sign() == 0 {
-					want = fmt.Sprintf("form=0 neg=%v coef= exp=0 nan=false inf=false sign=%v", v.Neg, v.Neg)
 					nzero++
+				} else if hi&0x6000000000000000 == 0x6000000000000000 {
+					nform2++
 				} else {
-					want = fmt.Sprintf("form=0 neg=%v coef=%x exp=%d nan=false inf=false sign=%v", v.Neg, v.C.Bytes(), v.Q, v.Neg)
-					if hi&0x6000000000000000 == 0x6000000000000000 {
-						nform2++
-					} else {
-						nplain++
-					}
+					nplain++
 				}
 			}
-			if got != want {
+			if !valueOK {
+				got += fmt.Sprintf(" coef=%x exp=%d", coef, exp)
+				want += " coefficient*10^exponent = " + v.String()
+			}
+			if got != want || !valueOK {
 				w.R.Fail(eng.Case{Op: "Decompose(UnmarshalBinary)", Args: []string{b.Hex()}, Got: got, Want: want, Note: "independent BID decoding: " + v.String()})
 			}
 		}
